@@ -307,6 +307,7 @@ func Run(p *ir.Program, id, tier, outDir, knownPath string, t0 time.Time) int {
 		fmt.Printf("VIOLATION property=%s replay=%s\n", id, replay)
 		return 1
 	}
+	_ = os.Remove(filepath.Join(outDir, id+".violation.txt")) // a replay file of an earlier, violating run is stale now
 	if len(c.Undec) > 0 {
 		for _, u := range c.Undec {
 			fmt.Printf("UNDECIDED property=%s: %s\n", id, u)
